@@ -666,6 +666,25 @@ def assume(cond):
         raise Infeasible()
 
 
+_FRESH = {"n": 0, "used": False}
+
+
+def fresh(name, lo, hi):
+    """a fresh bounded integer chosen by the environment (an over-approximated external result).  Paths that use
+    fresh values are re-validated against the real environment; a counterexample that exists only under the
+    over-approximation is reported as 'contract-only', never as a violation."""
+    p = CUR
+    if p is None:
+        raise RuntimeError("fresh() outside exploration")
+    _FRESH["n"] += 1
+    _FRESH["used"] = True
+    v = z3.Int(f"{name}#{_FRESH['n']}")
+    x = SInt(v)
+    assume(x >= lo)
+    assume(x <= hi)
+    return x
+
+
 def require(cond, label, detail=None):
     if not cond:
         raise Violated(label, detail)
@@ -802,6 +821,7 @@ def explore(
     inconclusive = []
     harness_errors = []
     reached = 0  # paths that ran to an outcome
+    contract_only = 0
     nontrivial = set()
     unreachable = 0
     while stack:
@@ -813,9 +833,13 @@ def explore(
             break
         region, rkeys, pmodel = stack.pop()
         CUR = p = Path(s, region, rkeys, pmodel)
+        _FRESH["n"] = 0
+        _FRESH["used"] = False
         kwargs = {n: SInt(v) for n, v in zvars.items()}
+        _FRESH_USED_IN_PATH[0] = False
         try:
             out = _outcome_class(fn, kwargs, allowed)
+            _FRESH_USED_IN_PATH[0] = _FRESH["used"]
         except Infeasible:
             CUR = None
             _push_siblings(s, p, stack)
@@ -846,8 +870,16 @@ def explore(
             except (Infeasible, Unreachable) as ex:
                 cout = ("dropped", type(ex).__name__, None)
             if (cout[0], cout[1]) != (out[0], out[1]):
-                harness_errors.append({"model": model, "symbolic": list(out), "concrete": list(cout)})
-                continue
+                if _FRESH_USED_IN_PATH[0]:
+                    # the path used an over-approximated environment value: the real environment decides
+                    contract_only += 1
+                    if cout[0] in ("violated", "raised") and cout[0] != "harness-bug":
+                        out = cout  # the real run fails: report that
+                    else:
+                        continue
+                else:
+                    harness_errors.append({"model": model, "symbolic": list(out), "concrete": list(cout)})
+                    continue
         if out[0] == "harness-bug":
             harness_errors.append({"model": model, "harness-bug": list(out)})
             continue
@@ -890,10 +922,14 @@ def explore(
         "known_hits": known,
         "samples": samples,
         "distinct_nontrivial": len(nontrivial),
+        "contract_only_mismatches": contract_only,
         "inconclusive": sorted(set(inconclusive)),
         "harness_errors": harness_errors[:5],
         "exhaustive": verdict == "holds",
     }
+
+
+_FRESH_USED_IN_PATH = [False]
 
 
 def _push_siblings(s, p, stack):
